@@ -199,16 +199,44 @@ TAG_DOCS = [
 ]
 
 
+TAG_FAMS = [("{% field %}", "{% /field %}"), ("{% t a=1 %}", "{% /t %}"), ("<!-- start -->", "<!-- /start -->"), ("{# c #}", "{# /c #}"),
+            ("{{ v }}", "{{ /v }}"), ("<!-- x:y k=\"v w\" -->", "<!-- /x:y -->")]
+TAG_BODIES = [
+    ("list", "- item 1\n- item 2"), ("list", "* x\n* y\n* z"), ("list", "+ a\n+ b"), ("list", "1. one\n2. two"), ("list", "3) c\n4) d"),
+    ("list", "- a\n  - nested\n- b"), ("list", "- a long item that will need to be wrapped at narrow widths for sure\n- b"),
+    ("table", "| a | b |\n|---|---|\n| 1 | 2 |"), ("table", "| a | b\n|---|---\n| 1 | 2"), ("table", "| a | b |\n|:--|--:|\n| 1 | 2 |\n| 3 | 4"),
+    ("table", "|a|b|\n|-|-|\n|1|2|"), ("para", "Some prose that is long enough to be wrapped at narrow widths, really it is long enough."),
+]
+
+
+def gen_tag_docs(ctx: Ctx):
+    """tag-delimited blocks: family × body × blank lines written or not × uniform indentation of the whole document × context"""
+    docs = [(d, ("list" if re.search(r"^(- |\* |\d+\. )", d, re.M) else "table" if "|---|" in d else "para")) for d in TAG_DOCS]
+    for (o, c) in TAG_FAMS:
+        for kind, body in TAG_BODIES:
+            for gap in ("\n", "\n\n"):
+                core = o + gap + body + gap + c + "\n"
+                for ind in ("", "  ", "    "):
+                    for ctxt in ("", "Intro text.\n\n"):
+                        doc = ctxt + core + ("\nOutro.\n" if ctxt else "")
+                        docs.append(("".join(ind + l if l.strip() else l for l in doc.splitlines(True)), kind))
+    return docs
+
+
 def tag_blocks(ctx: Ctx) -> None:
     import mdast
     from flowmark import reformat_text
-    for doc in TAG_DOCS:
-        for W in (10, 20, 40, 88):
+    docs = gen_tag_docs(ctx)
+    if ctx.tier == "quick":
+        docs = docs[:len(TAG_DOCS)] + ctx.rng.sample(docs[len(TAG_DOCS):], 160)
+    for doc, kind in docs:
+        for W in (10, 20, 40, 88) if ctx.tier == "thorough" else ctx.rng.sample((10, 20, 40, 88), 2):
             for sem in (False, True):
                 out = reformat_text(doc, width=W, semantic=sem, cleanups=False)
                 case = {"doc": doc, "W": W, "semantic": sem}
                 ctx.count(["tag-block", doc, W, sem])
-                in_tags = [l for l in doc.split("\n") if re.match(r"^(\{%|\{#|<!--).*(%\}|#\}|-->)$", l)]
+                ctx.bump("tag-block:" + kind)
+                in_tags = [l.strip() for l in doc.split("\n") if re.match(r"^(\{%|\{#|\{\{|<!--).*(%\}|#\}|\}\}|-->)$", l.strip())]
                 out_lines = out.split("\n")
                 for t in in_tags:
                     if t not in out_lines:
@@ -216,18 +244,19 @@ def tag_blocks(ctx: Ctx) -> None:
                         break
                 else:
                     ast = mdast.norm_doc(out)
-                    want_list = bool(re.search(r"^(- |\* |\d+\. )", doc, re.M))
-                    want_table = "|---|" in doc
                     kinds = [b[0] for b in ast]
-                    if (want_list and "list" not in kinds) or (want_table and "table" not in kinds):
+                    if kind in ("list", "table") and kind not in kinds:
                         ctx.fail("BLOCKGAP: a list/table enclosed by tag lines is no longer a list/table", case, {"kinds": kinds, "out": out})
+                        continue
+                    bad = False
                     for k, l in enumerate(out_lines):
                         if l in in_tags:
                             nb = [out_lines[j] for j in (k - 1, k + 1) if 0 <= j < len(out_lines)]
-                            if any(re.match(r"^(- |\* |\d+\. |\|)", x) for x in nb):
+                            if any(re.match(r"^([-*+] |\d+[.)] |\|)", x) for x in nb):
                                 ctx.fail("BLOCKGAP: tag line directly adjacent to a list/table line (no blank line)", case, out)
+                                bad = True
                                 break
-                    if reformat_text(out, width=W, semantic=sem, cleanups=False) != out:
+                    if not bad and reformat_text(out, width=W, semantic=sem, cleanups=False) != out:
                         ctx.fail("tag-delimited block is not stable under re-formatting", case, out)
 
 
@@ -262,6 +291,7 @@ def run(ctx: Ctx) -> None:
 
 def search(ctx: Ctx) -> None:
     atoms_intact(ctx, 60000)
+    ctx.tier = "thorough"      # the whole tag-block family, every width
     tag_blocks(ctx)
 
 
